@@ -100,11 +100,21 @@ func H_C20_contains(n int) {
 	vReach("end")
 }
 
-// H_C20_cid: GetCallIDSig start/middle/end flags agree with the reported span.
-func H_C20_cid(n int) {
-	buf := vBytes(n)
+// H_C20_cid: GetCallIDSig start/middle/end flags agree with the span reported
+// by ContainsIP4. The string is pre symbolic bytes + "1.2.3." + one symbolic
+// digit + post symbolic bytes (a fully symbolic string needs >= 7 bytes to
+// contain an address, which is too expensive through getStrCharsSig).
+func H_C20_cid(pre, post int) {
+	buf := append([]byte(nil), vBytes(pre)...)
+	buf = append(buf, "1.2.3."...)
+	d := vByte()
+	vAssume(d >= '0' && d <= '9')
+	buf = append(buf, d)
+	buf = append(buf, vBytes(post)...)
+	n := len(buf)
 	found, offs, l := ContainsIP4(buf, nil)
 	sig, _ := GetCallIDSig(buf)
+	vAssert("address-found", found)
 	if found {
 		if offs == 0 {
 			vAssert("ip-start-flag", sig&SigIPStartF != 0)
